@@ -1,4 +1,4 @@
 From Coq Require Extraction ExtrOcamlBasic.
 From RdpV Require Import Base Link Tpkt C13_proofs.
 Extraction Language OCaml.
-Extraction "../ocaml/framing/model.ml" tpkt_read x224_read tpkt_write x224_write tpkt_writes reads.
+Extraction "../ocaml/framing/model.ml" tpkt_read x224_read tpkt_write x224_write tpkt_writes link_write reads.
